@@ -239,19 +239,34 @@ theorem classTable_nodup (cs : List ClassDecl) :
         subst hb
         exact List.mem_of_getElem? hb'
 
+theorem dictOfPairs_nodup (m : Mapping) : ((dictOfPairs m).map (·.1)).Nodup := by
+  unfold dictOfPairs
+  suffices H : ∀ (d : Mapping), (Dict.keys d).Nodup →
+      (Dict.keys (m.foldl (fun d kv => Dict.set d kv.1 kv.2) d)).Nodup from H [] (by simp [Dict.keys])
+  induction m with
+  | nil => intro d h; exact h
+  | cons kv m ih => intro d h; exact ih _ (Dict.keys_nodup_set d kv.1 kv.2 h)
+
 theorem parsed_universe_wf (p : Parsed) : p.universe.WF := by
   constructor
   intro o m hm
   simp only [Parsed.universe] at hm
-  cases ho : Dict.get? p.objClass o with
-  | none => simp [ho] at hm
-  | some c =>
-    simp only [ho, Option.bind_some] at hm
-    cases hc : (classTable p.classes)[c]? with
-    | none => simp [hc] at hm
-    | some x =>
-      simp only [hc, Option.join_some] at hm
-      subst hm
-      exact classTable_nodup p.classes m (List.mem_of_getElem? hc)
+  cases he : Dict.get? p.objEvents o with
+  | some e =>
+    simp only [he, Option.map_some, Option.orElse_some, Option.some.injEq] at hm
+    subst hm
+    exact dictOfPairs_nodup e
+  | none =>
+    simp only [he, Option.map_none, Option.orElse_none] at hm
+    cases ho : Dict.get? p.objClass o with
+    | none => simp [ho] at hm
+    | some c =>
+      simp only [ho, Option.bind_some] at hm
+      cases hc : (classTable p.classes)[c]? with
+      | none => simp [hc] at hm
+      | some x =>
+        simp only [hc, Option.join_some] at hm
+        subst hm
+        exact classTable_nodup p.classes m (List.mem_of_getElem? hc)
 
 end Desper.Disp
